@@ -14,7 +14,7 @@ C06.pattern  : Literal <-> pattern siblings: the emitter joins *sorted* members 
 
 import ast
 
-from ..core import iter_own, norm, short
+from ..core import RefGraph, iter_own, norm, short
 from ..defuse import local_defs
 from ..fold import ModuleEnv, Unknown
 from .c11 import PathFact, body_paths
@@ -275,6 +275,49 @@ def run(ctx):
         c10.inputmut_rule(ctx, "C06.inputmut", [(f_, f_.params[0])], "a second emission of the same object lists other properties as required")
 
     ctx.section(_sec_inputmut)
+
+    def _sec_vocab():
+        # "parsing the emitted schema back yields the same interface": every JSON-schema keyword the property
+        # emitter can write into a property must at least be LOOKED AT by the property parser. A keyword the reader
+        # never mentions (`format` of a date-time string) cannot be translated back: it stays in the parameter entry
+        # as a stray key and whatever it encoded (the `datetime` type) is lost.
+        w_ = index.func("cdd.json_schema.utils.emit_utils.param2json_schema_property")
+        r_ = index.func("cdd.json_schema.utils.parse_utils.json_schema_property_to_param")
+        ir_keys = {"typ", "doc", "default", "x_typ"}
+        written = {}
+        for n in iter_own(w_.node):
+            if isinstance(n, (ast.Assign, ast.AugAssign)):
+                for t in n.targets if isinstance(n, ast.Assign) else [n.target]:
+                    if isinstance(t, ast.Subscript) and isinstance(t.slice, ast.Constant) and isinstance(t.slice.value, str):
+                        written.setdefault(t.slice.value, n)
+            if isinstance(n, ast.Call) and isinstance(n.func, ast.Attribute) and n.func.attr == "update" and n.args and isinstance(n.args[0], ast.Dict):
+                for k in n.args[0].keys:
+                    if isinstance(k, ast.Constant) and isinstance(k.value, str):
+                        written.setdefault(k.value, n)
+        from ..region import Region
+
+        mentioned = set()
+        for g_, n in Region(index, RefGraph(index), r_).nodes():
+            if isinstance(n, ast.Constant) and isinstance(n.value, str):
+                mentioned.add(n.value)
+        ctx.floor("JSON-schema keywords written by the property emitter", len(written), 3)
+        for k in sorted(written):
+            if k in ir_keys:
+                continue
+            ok = k in mentioned
+            ctx.ob(
+                "C06.vocab",
+                w_,
+                "property keyword {!r} written by the emitter".format(k),
+                ok,
+                ""
+                if ok
+                else "the emitter writes the JSON-schema keyword {!r} (`{}`) but the property parser never looks at it: parsed back, the "
+                "entry keeps {!r} as a stray key and what it encoded is lost (the round trip cannot be the identity)".format(k, short(written[k], 60), k),
+                line=written[k].lineno,
+            )
+
+    ctx.section(_sec_vocab)
 
 
 
